@@ -8,6 +8,9 @@ import "time"
 var (
 	TickerTicks = 3
 	TicksSent   int
+	// TickerPeriodic selects the second ticker model (for harnesses run under the timed semantics): a tick every d,
+	// dropped when the previous one has not been taken (the channel holds one tick), as the runtime does.
+	TickerPeriodic bool
 )
 
 //verif:atomic
@@ -26,6 +29,19 @@ func NewTicker(d time.Duration) *time.Ticker {
 	}
 	c := make(chan time.Time, 1)
 	n := TickerTicks
+	if TickerPeriodic {
+		go func() {
+			for i := 0; i < n; i++ {
+				time.Sleep(d)
+				select {
+				case c <- time.Now():
+					countTick()
+				default: // the runtime drops a tick nobody has taken the previous one of
+				}
+			}
+		}()
+		return &time.Ticker{C: c}
+	}
 	go func() {
 		for i := 0; i < n; i++ {
 			countTick()
